@@ -40,13 +40,17 @@ def _compile(args):
     key, src, expect_ok = args
     d = os.path.join(BUILD, "probes")
     os.makedirs(d, exist_ok=True)
-    f = os.path.join(d, hashlib.sha1(src.encode()).hexdigest()[:16] + ".cpp")
+    import threading, uuid
+    f = os.path.join(d, hashlib.sha1(src.encode()).hexdigest()[:16] + "_" + uuid.uuid4().hex[:8] + ".cpp")   # unique: identical probe texts may be compiled concurrently
     with open(f, "w") as fh:
         fh.write(src)
     r = subprocess.run(["g++", "-std=c++17", "-fsyntax-only", "-I" + INC, f], stdout=subprocess.PIPE, stderr=subprocess.PIPE, text=True)
     ok = r.returncode == 0
     first = next((l for l in r.stderr.splitlines() if "error" in l), "")
-    os.unlink(f)
+    try:
+        os.unlink(f)
+    except OSError:
+        pass
     return key, ok, expect_ok, first[:300], src
 
 
